@@ -447,3 +447,121 @@ fn promote_container_to_array(container: &Container, hll_type: HllType, lg_confi
         }
     }
 }
+
+/// Verification hook: plain dump of the internal state of an [`HllSketch`].
+#[cfg(feature = "verif-hooks")]
+#[derive(Debug, Clone, PartialEq)]
+pub struct VerifHllState {
+    /// Configured lg_k.
+    pub lg_config_k: u8,
+    /// Target type: 4, 6 or 8.
+    pub hll_type: u8,
+    /// 0 = list, 1 = set, 2 = register array.
+    pub mode: u8,
+    /// List/set mode: lg of the coupon container size.
+    pub lg_arr: usize,
+    /// List/set mode: the container in storage order (0 = empty slot).
+    pub coupons: Vec<u32>,
+    /// List/set mode: the stored coupon count.
+    pub count: usize,
+    /// Array mode: decoded register values.
+    pub regs: Vec<u8>,
+    /// Array mode, Hll4 only: raw 4-bit cells.
+    pub raw: Vec<u8>,
+    /// Array mode, Hll4: cur_min (0 otherwise).
+    pub cur_min: u8,
+    /// Array mode: num_at_cur_min (Hll4) or num_zeros (Hll6/Hll8).
+    pub num_at_cur_min: u32,
+    /// Array mode, Hll4: exception entries (slot, value).
+    pub aux: Vec<(u32, u8)>,
+    /// Array mode: HIP accumulator.
+    pub hip: f64,
+    /// Array mode: kxq0.
+    pub kxq0: f64,
+    /// Array mode: kxq1.
+    pub kxq1: f64,
+    /// Array mode: out-of-order flag.
+    pub ooo: bool,
+}
+
+#[cfg(feature = "verif-hooks")]
+impl HllSketch {
+    /// Verification hook: feed a crafted coupon (26-bit slot | value << 26).
+    pub fn verif_update_with_coupon(&mut self, coupon: u32) {
+        self.update_with_coupon(coupon);
+    }
+
+    /// Verification hook: dump the internal state without going through the serializer.
+    pub fn verif_state(&self) -> VerifHllState {
+        let mut st = VerifHllState {
+            lg_config_k: self.lg_config_k,
+            hll_type: match self.target_type() {
+                HllType::Hll4 => 4,
+                HllType::Hll6 => 6,
+                HllType::Hll8 => 8,
+            },
+            mode: 0,
+            lg_arr: 0,
+            coupons: vec![],
+            count: 0,
+            regs: vec![],
+            raw: vec![],
+            cur_min: 0,
+            num_at_cur_min: 0,
+            aux: vec![],
+            hip: 0.0,
+            kxq0: 0.0,
+            kxq1: 0.0,
+            ooo: false,
+        };
+        let k = 1u32 << self.lg_config_k;
+        match &self.mode {
+            Mode::List { list, .. } => {
+                st.mode = 0;
+                st.lg_arr = list.container().lg_size();
+                st.coupons = list.container().coupons.to_vec();
+                st.count = list.container().len();
+            }
+            Mode::Set { set, .. } => {
+                st.mode = 1;
+                st.lg_arr = set.container().lg_size();
+                st.coupons = set.container().coupons.to_vec();
+                st.count = set.container().len();
+            }
+            Mode::Array4(arr) => {
+                st.mode = 2;
+                st.regs = (0..k).map(|s| arr.get(s)).collect();
+                let (raw, cur_min, nacm, aux, hip, kxq0, kxq1, ooo) = arr.verif_parts();
+                st.raw = raw;
+                st.cur_min = cur_min;
+                st.num_at_cur_min = nacm;
+                st.aux = aux;
+                st.hip = hip;
+                st.kxq0 = kxq0;
+                st.kxq1 = kxq1;
+                st.ooo = ooo;
+            }
+            Mode::Array6(arr) => {
+                st.mode = 2;
+                st.regs = (0..k).map(|s| arr.get(s)).collect();
+                let (nz, hip, kxq0, kxq1, ooo) = arr.verif_parts();
+                st.num_at_cur_min = nz;
+                st.hip = hip;
+                st.kxq0 = kxq0;
+                st.kxq1 = kxq1;
+                st.ooo = ooo;
+            }
+            Mode::Array8(arr) => {
+                st.mode = 2;
+                st.regs = arr.values().to_vec();
+                let (nz, hip, kxq0, kxq1, ooo) = arr.verif_parts();
+                st.num_at_cur_min = nz;
+                st.hip = hip;
+                st.kxq0 = kxq0;
+                st.kxq1 = kxq1;
+                st.ooo = ooo;
+            }
+        }
+        st
+    }
+}
